@@ -280,6 +280,8 @@ key_done(struct keyinfo * k)
 }
 
 /* ---- one segment, data held in memory ---- */
+static void bystander(uint64_t);
+
 static void
 seg_mem(struct crypto_aesctr ** streamp, const char * flags, int first,
     struct keyinfo * newkey, struct keyinfo * eff, uint64_t nonce,
@@ -323,9 +325,11 @@ seg_mem(struct crypto_aesctr ** streamp, const char * flags, int first,
 				    nonce)) == NULL)
 					vh_die("crypto_aesctr_init failed");
 			}
-		} else
+		} else {
+			bystander(nonce);
 			crypto_aesctr_init2(*streamp,
 			    newkey ? newkey->lib : NULL, nonce);
+		}
 		/* Far-offset stream: as if startblk whole blocks were done. */
 		if (far)
 			crypto_aesctr_verif_seek(*streamp, startblk);
@@ -440,6 +444,38 @@ seg_mem(struct crypto_aesctr ** streamp, const char * flags, int first,
 		free(fin);
 }
 
+/*
+ * Bystander: before a stream object is re-initialised, the process uses AES-CTR
+ * with UNRELATED keys - a one-shot crypto_aesctr_buf call (alternately a 128-
+ * and a 256-bit key) and a few bytes through a second stream object that stays
+ * alive for the whole process.  Streams are independent objects: none of this
+ * may change what the stream under test produces (in particular a NULL key
+ * passed to crypto_aesctr_init2 retains THAT stream's key).
+ */
+static uint64_t n_bystander;
+
+static void
+bystander(uint64_t nonce)
+{
+	static struct crypto_aes_key * bk[2];
+	static struct crypto_aesctr * live;
+	uint8_t kb[32], buf[40];
+	size_t i;
+
+	if (bk[0] == NULL) {
+		for (i = 0; i < 32; i++)
+			kb[i] = (uint8_t)(0xB1 + 7 * i);
+		if ((bk[0] = crypto_aes_key_expand(kb, 16)) == NULL ||
+		    (bk[1] = crypto_aes_key_expand(kb, 32)) == NULL ||
+		    (live = crypto_aesctr_init(bk[1], 7)) == NULL)
+			vh_die("bystander setup failed");
+	}
+	memset(buf, 0, sizeof(buf));
+	crypto_aesctr_buf(bk[n_bystander & 1], nonce ^ 0x55, buf, buf, 37);
+	crypto_aesctr_stream(live, buf, buf, 5);
+	n_bystander++;
+}
+
 /* ---- one segment, generated data, processed call by call ---- */
 static void
 seg_gen(struct crypto_aesctr ** streamp, const char * flags, int first,
@@ -470,8 +506,10 @@ seg_gen(struct crypto_aesctr ** streamp, const char * flags, int first,
 		} else if ((*streamp = crypto_aesctr_init(newkey->lib, nonce))
 		    == NULL)
 			vh_die("crypto_aesctr_init failed");
-	} else
+	} else {
+		bystander(nonce);
 		crypto_aesctr_init2(*streamp, newkey ? newkey->lib : NULL, nonce);
+	}
 
 	parts_init(&it, partstr);
 	while (parts_next(&it, &n)) {
